@@ -21,7 +21,12 @@ func realLinks(t *testing.T, rep *kit.Report, env kit.Env, evals, nontrivial *in
 		gs = append(gs, line(6), ring(5), grid(2, 3))
 	}
 	for _, g := range gs {
-		for _, info := range []int{0, 450} {
+		for _, info := range []int{0, 450, -450} {
+			// negative: the same padding over a transport that hands data to the link reader in 300-byte segments.
+			seg := 0
+			if info < 0 {
+				info, seg = -info, 300
+			}
 			if !mine() {
 				continue
 			}
@@ -42,6 +47,7 @@ func realLinks(t *testing.T, rep *kit.Report, env kit.Env, evals, nontrivial *in
 				for _, e := range g.edges {
 					time.Sleep(3 * time.Millisecond)
 					wr := kit.NewWire(nodes[e[0]], nodes[e[1]])
+					wr.EA.MaxRead, wr.EB.MaxRead = seg, seg
 					wr.Start()
 					wr.Pump(12)
 					if wr.LinkA == nil || wr.LinkB == nil {
@@ -97,7 +103,7 @@ func realLinks(t *testing.T, rep *kit.Report, env kit.Env, evals, nontrivial *in
 				*evals += int64(steps)
 				*nontrivial += int64(steps)
 				ms := &mesh{w: w, nodes: nodes}
-				desc := fmt.Sprintf("%s over real links, router-info padding %d", g.name, info)
+				desc := fmt.Sprintf("%s over real links, router-info padding %d, transport segments %d", g.name, info, seg)
 				for _, v := range ms.reachViolations(allOrigins(g.n)) {
 					rep.Violate("real-links/"+g.name+"/"+firstWord(v), fmt.Sprintf("%s — %s", v, desc), desc)
 				}
